@@ -19,6 +19,9 @@ def datasets(torch, dtype):
         ("three-knots", T([0.0, 1.0, 3.0]), T([1.0, 2.0, 2.5])),
         ("two-knots", T([0.0, 2.0]), T([1.0, -3.0])),
         ("kink-ends", T([0.0, 1.0, 2.0, 3.0, 4.0]), T([0.0, 2.0, 1.5, 3.0, 0.5])),
+        # a huge value next to ordinary ones: a knot must be reproduced to ITS OWN scale (evaluated on its own interval)
+        ("wide-range", T([0.0, 0.7, 1.9, 3.1, 4.0, 5.3]), T([0.3, 1e8 if dtype == torch.float32 else 1e16, 1.1, 2.3, 3.7, 4.9])),
+        ("wide-range-2", T([0.0, 1.0, 2.0, 3.0, 4.0, 5.0]), T([0.0, 1e8 if dtype == torch.float32 else 1e16, 1.0, 2.0, 3.0, 4.0])),
     ]
 
 
@@ -62,7 +65,17 @@ def run(repo_root, tier, only=None):
                     res["homogeneous"] = (dev <= tol * (1 + unit.abs().max().item()),
                                           f"P[c y]/c differs from P[y] by {dev:.3g} (c = 2**{e})")
                     kd = (at / c - y.double()).abs().max().item() if torch.isfinite(at).all() else float("inf")
-                    res["knots-reproduced"] = (kd <= tol * (1 + y.double().abs().max().item()), f"max |P(x_k)/c - y_k| = {kd:.3g}")
+                    ok_k = kd <= tol * (1 + y.double().abs().max().item())
+                    detail_k = f"max |P(x_k)/c - y_k| = {kd:.3g}"
+                    if ok_k and torch.isfinite(at).all():
+                        # every knot but the last is the start of its own interval: reproduced to its own scale
+                        own = ((at / c - y.double()).abs() / (1 + y.double().abs()))[:-1]
+                        if own.numel() and own.max().item() > 64 * tol:
+                            k = int(own.argmax())
+                            ok_k = False
+                            detail_k = (f"knot {k}: P(x_k)/c = {(at[k] / c).item()!r} but y_k = {y[k].item()!r} "
+                                        f"(neighbouring values up to {y.double().abs().max().item():.3g})")
+                    res["knots-reproduced"] = (ok_k, detail_k)
                 except Exception as ex:     # noqa: BLE001
                     res["no-exception"] = (False, f"{type(ex).__name__}: {ex}")
                 for cl, (ok, detail) in res.items():
